@@ -325,6 +325,18 @@ Definition vload (M : lookup_mode) (fR : rflags) (E : env) (val : pyval) : list 
     end
   end.
 
+(* Connection._dispatch, MSG_EXCEPTION branch: the rebuilt exception goes to the callback of the request it answers; when
+   rebuilding fails, either that failure is delivered to the request instead (generated fact: _dispatch_response; EOFError
+   still propagates) or it escapes _dispatch with the callback left registered *)
+Inductive delivered := ToRequest (r : lres) | FailsRequest (e : exn) | Escapes (e : exn) | DUnmodelled.
+Definition is_eof (e : exn) : bool := match e with EOFError => true | _ => false end.
+Definition dispatch_exception (delivers : bool) (r : result lres) : delivered :=
+  match r with
+  | Ok l => ToRequest l
+  | Raise e => if delivers && negb (is_eof e) then FailsRequest e else Escapes e
+  | _ => DUnmodelled
+  end.
+
 (* ---- harness interface ---- *)
 Definition text_of_sx (x : sx) : text := map sx_n (sx_l x).
 Definition sx_of_text (t : text) : sx := SL (map sN t).
